@@ -22,6 +22,9 @@ pub(crate) struct Assignment {
     idents: Box<[Ident]>,
     value: Value,
     flags: AssignmentFlag,
+    /// `[a, b] = value` (also with a single name, `[a] = value`): every name receives one element
+    /// of the value. A plain `a = value` stores the value itself.
+    is_unpack: bool,
 }
 
 impl WalkForType for Assignment {
@@ -71,6 +74,7 @@ impl Assignment {
             idents: Box::new([ident]),
             value,
             flags: AssignmentFlag(0),
+            is_unpack: false,
         }
     }
 
@@ -79,6 +83,7 @@ impl Assignment {
             idents,
             value,
             flags: AssignmentFlag(0),
+            is_unpack: true,
         }
     }
 
@@ -97,7 +102,7 @@ impl Assignment {
         user_data: &AssocFileData,
         is_modify: bool,
     ) -> Result<bool> {
-        if self.idents.len() != 1 {
+        if self.is_unpack {
             bail!("cannot modify a pre-existing variable when unpacking");
         };
 
@@ -154,7 +159,7 @@ impl Dependencies for Assignment {
     fn dependencies(&self) -> Vec<Dependency> {
         let mut base = self.value().net_dependencies();
 
-        if self.idents.len() == 1 && self.idents[0].is_instance_callback_variable().unwrap() {
+        if !self.is_unpack && self.idents[0].is_instance_callback_variable().unwrap() {
             base.push(Dependency::new(Cow::Borrowed(&self.idents[0])));
         }
 
@@ -185,7 +190,7 @@ impl Compile for Assignment {
     fn compile(&self, state: &CompilationState) -> Result<Vec<super::CompiledItem>> {
         let mut value_init = self.value().compile(state)?;
 
-        if self.idents.len() == 1 {
+        if !self.is_unpack {
             let name = self.idents[0].name();
             let store_instruction = if self.flags().contains(AssignmentFlag::modify()) {
                 instruction!(store_object name)
@@ -429,7 +434,7 @@ impl Parser {
             )]);
         }
 
-        if x.idents.len() == 1 {
+        if !x.is_unpack {
             let ident_ty = x.idents[0].ty().unwrap();
             if let Some(list_type) = ident_ty.is_list() {
                 if list_type.must_be_const() && !is_const {
@@ -452,7 +457,7 @@ impl Parser {
             x.set_flags(flags)
         }
 
-        if x.idents.len() == 1 {
+        if !x.is_unpack {
             if let Some(previous_ident) = did_exist_before.as_ref() {
                 let ident = &x.idents[0];
 
